@@ -178,6 +178,15 @@ func (ie *ImageExtractor) findRealFigureImage(figure *html.Node) *html.Node {
 }
 
 func (ie *ImageExtractor) processPicture(picture *html.Node) {
+	// The picture is cloned as a whole for the output, so comments have to go as well.
+	for child := picture.FirstChild; child != nil; {
+		next := child.NextSibling
+		if child.Type == html.CommentNode {
+			picture.RemoveChild(child)
+		}
+		child = next
+	}
+
 	// Picture should only contains sources and images
 	for _, node := range dom.GetElementsByTagName(picture, "*") {
 		tagName := dom.TagName(node)
